@@ -94,8 +94,12 @@ func NewUnsignedTransaction(outputs []*wire.TxOut, feeRatePerKb btcutil.Amount,
 	fetchInputs InputSource, changeSource *ChangeSource) (*AuthoredTx, error) {
 
 	targetAmount := SumOutputValues(outputs)
+	// The first target assumes a single input of the smallest supported
+	// kind (P2TR key spend). The loop below raises the target once the
+	// real inputs are known; a larger first guess would make a lone coin
+	// that covers the final fee look insufficient.
 	estimatedSize := txsizes.EstimateVirtualSize(
-		0, 0, 1, 0, outputs, changeSource.ScriptSize,
+		0, 1, 0, 0, outputs, changeSource.ScriptSize,
 	)
 	targetFee := txrules.FeeForSerializeSize(feeRatePerKb, estimatedSize)
 
